@@ -37,6 +37,11 @@ type CaseIn struct {
 	Tool      string   `json:"tool"` // doapprove | drc | drc-nolog (drc -C without -L)
 	FaultPos  int      `json:"fault_pos"`
 	FaultKind string   `json:"fault_kind"`
+	// the scenarios' time-outs (timeout = 1 s, login_timeout = 3 s) are multiplied by this: 0/1 in
+	// the parallel phase on an idle machine, larger when the machine is slow and in the serial
+	// re-run of a case that looked wrong (real timers are no part of the model: the outcome of a
+	// run must not depend on the factor, only its duration when the device is silent)
+	TScale int `json:"tscale,omitempty"`
 }
 
 type CaseOut struct {
@@ -87,9 +92,32 @@ func configLines(s Scenario) []string {
 	return l
 }
 
+// envAccident: self-test of the inconclusive path.  VH_C11_INJECT_ENV=ptmx|timeout|ptmx-always makes
+// every fifth case of the PARALLEL phase (time-out factor below rerunScale) suffer what a loaded
+// machine does to it: no pty ("ptmx"), or time-outs of 0 s ("timeout"); "ptmx-always" also in the
+// serial re-run.  Never set by ./check.
+func envAccident(c CaseIn) string {
+	mode := os.Getenv("VH_C11_INJECT_ENV")
+	if mode == "" || (c.TScale >= rerunScale && mode != "ptmx-always") {
+		return ""
+	}
+	h := 0
+	for _, ch := range fmt.Sprintf("%s|%s|%d|%s", c.Scen.ID, c.Tool, c.FaultPos, c.FaultKind) {
+		h = (h*31 + int(ch)) % 1000003
+	}
+	if h%5 != 0 {
+		return ""
+	}
+	return strings.TrimSuffix(mode, "-always")
+}
+
 func runCase(c CaseIn) CaseOut {
 	start := time.Now()
 	var out CaseOut
+	accident := envAccident(c)
+	if accident == "ptmx" {
+		return CaseOut{Exit: 1, Stderr: "ERROR>>> open /dev/ptmx: no space left on device\n", FaultAt: -1, WallMs: 1}
+	}
 	work, err := os.MkdirTemp("", "c11case")
 	if err != nil {
 		panic(err)
@@ -119,8 +147,15 @@ func runCase(c CaseIn) CaseOut {
 		os.Mkdir(filepath.Join(work, d), 0755)
 	}
 	os.WriteFile(filepath.Join(work, "credentials"), []byte("* admin secret\n"), 0644)
+	scale := c.TScale
+	if scale < 1 {
+		scale = 1
+	}
+	if accident == "timeout" {
+		scale = 0
+	}
 	os.WriteFile(filepath.Join(work, ".netspoc-approve"), []byte(fmt.Sprintf(
-		"basedir = %s\ncheckbanner = NetSPoC\nsystemuser = admin\ntimeout = 1\nlogin_timeout = 3\n", work)), 0644)
+		"basedir = %s\ncheckbanner = NetSPoC\nsystemuser = admin\ntimeout = %d\nlogin_timeout = %d\n", work, scale, 3*scale)), 0644)
 	os.Setenv("HOME", work)
 	os.Setenv("TEST_TIME", "2024-Sep-29 16:19:50")
 	os.Unsetenv("LANG")
